@@ -114,6 +114,20 @@ CLAIMED['C02'] = ('other',
     'abstract interpretation with string-identity tracking (validate re-applied to its abstract results)',
     'DESIGN.md section C02')
 
+CLAIMED['C18'] = ('other',
+    'Rules over the syntax tree of online_check/stdnum.wsgi and the text of template.html: a taint rule (everything that reaches the '
+    'page is safe markup: constants, direct html.escape() results with quote escaping in the attribute context, constant-pattern '
+    'replace/re.sub, concatenation, %-formatting of constant templates, joins over local functions that only return safe markup); '
+    'html.escape() arguments are strings; both start_response() calls carry the literal 200 OK with the content type of their mode and '
+    'no raise lies on the request path; the query is read with defaults, parse_qs() without limits that raise, the first value only '
+    'under its membership guard; the result list is exactly get_number_modules() filtered by is_valid(); conversions run inside '
+    '`except Exception`; the template uses exactly the keys passed. These hold for every query string, mode and request sequence '
+    '(state: C13 covers the script as well).',
+    'Trusted: html.escape and parse_qs semantics; template.html as markup. Availability of is_valid/format/compact on every input is '
+    'C01/C04. A genuine defect found by this rule (html.escape() of non-string conversions) was repaired in /repo (44a32d5).',
+    'taint / typestate rules over the WSGI script AST',
+    'DESIGN.md section C18')
+
 NOT_APPLICABLE = {
 }
 
